@@ -352,14 +352,39 @@ where
         let point_word = (point >> (State::BITS - Word::BITS)).as_();
         self.bulk.write(point_word)?;
 
-        let upper_word = (self.state.lower.wrapping_add(&self.state.range.get())
-            >> (State::BITS - Word::BITS))
-            .as_();
-        if upper_word == point_word {
+        for _ in 0..self.num_zero_seal_words(point_word) {
             self.bulk.write(Word::zero())?;
         }
 
         Ok(())
+    }
+
+    /// Returns the number of zero words that have to follow `point_word` when sealing, so
+    /// that a decoder ends up inside the current interval even if the sealed data gets
+    /// concatenated with arbitrary further words.
+    fn num_zero_seal_words(&self, point_word: Word) -> usize {
+        let upper_word: Word = (self.state.lower.wrapping_add(&self.state.range.get())
+            >> (State::BITS - Word::BITS))
+            .as_();
+        if upper_word != point_word {
+            return 0;
+        }
+
+        // The `point_word` followed by only zero bits is inside the interval, but
+        // `point_word` followed by one bits is not. We have to pin down the bits after
+        // `point_word` with zero words until the largest number that starts with all emitted
+        // words is below `upper`. A single zero word always suffices if `State` holds exactly
+        // two `Word`s (because a decoder then reads nothing else into its initial `point`).
+        let base = (point_word.into() << (State::BITS - Word::BITS)).wrapping_sub(&self.state.lower);
+        let mut count = 1;
+        let mut num_free_bits = State::BITS - 2 * Word::BITS;
+        while num_free_bits != 0
+            && base + ((State::one() << num_free_bits) - State::one()) >= self.state.range.get()
+        {
+            count += 1;
+            num_free_bits -= Word::BITS;
+        }
+        count
     }
 
     fn num_seal_words(&self) -> usize {
@@ -372,10 +397,7 @@ where
             .lower
             .wrapping_add(&((State::one() << (State::BITS - Word::BITS)) - State::one()));
         let point_word = (point >> (State::BITS - Word::BITS)).as_();
-        let upper_word = (self.state.lower.wrapping_add(&self.state.range.get())
-            >> (State::BITS - Word::BITS))
-            .as_();
-        let mut count = if upper_word == point_word { 2 } else { 1 };
+        let mut count = 1 + self.num_zero_seal_words(point_word);
 
         if let EncoderSituation::Inverted(num_inverted, _) = self.situation {
             count += num_inverted.get();
